@@ -426,6 +426,10 @@ func (t *thread) Step() (bool, error) {
 			// Alt stack doesn't persist.
 			_ = t.astack.DropN(t.astack.Depth())
 			t.shiftScript()
+			// there are zero length scripts in the wild
+			if t.scriptIdx < len(t.scripts) && t.scriptOff >= len(t.scripts[t.scriptIdx]) {
+				t.scriptIdx++
+			}
 			return t.scriptIdx >= len(t.scripts), nil
 		}
 		return true, err
